@@ -94,7 +94,45 @@ UNITS['c03'] = {
 def _fn_text_scan(name, file, impl, fn, must, must_not=None):
     return {'name': name, 'kind': 'fn_text', 'file': file, 'impl': impl, 'fn': fn, 'must': must, 'must_not': must_not or []}
 
+UNITS['c01'] = {
+    'template': 'contracts/c01.vrs',
+    'rlimit': 30,
+    'mutants': [
+        ('headers_guard_removed', 'if !matches!(rhs.0.dereference(), Expr::Object(_)) {', 'if false {', ['C01.site.eval_content']),
+        ('domain_guard_removed', 'if !value.0.is_content_like() {', 'if false {', ['C01.site.eval_transfer']),
+        ('resource_guard_removed', 'if !rel.0.dereference().is_uri_like() {', 'if false {', ['C01.site.eval_program']),
+        ('uri_guard_removed', 'if !uri.0.dereference().is_uri_like() {', 'if false {', ['C01.site.eval_relation']),
+        ('is_schema_admits_content', '| Tag::Any | Tag::Var(_) ) }', '| Tag::Any | Tag::Content | Tag::Var(_) ) }', ['C01.tagpred', 'C01.check', 'C01.site']),
+        ('array_item_unchecked', 'if !get_tag(array.inner()).is_schema() {', 'if false {', ['C01.check.array']),
+        ('object_props_unchecked', 'if !(get_tag(p).is_property()) { __r4_1 = false; break; }', 'if false { __r4_1 = false; break; }', ['C01.check.object']),
+        ('type_check_skips_arrays', '} else if let Some(array) = syn::Array::cast(node) { check_array(array) }', '}', ['C01.check.type_check']),
+        ('schema_like_admits_string', '| Expr::Recursion(_) )', '| Expr::Recursion(_) | Expr::String(_) )', ['C01.pred', 'C01.cast']),
+        ('cast_object_through_content', 'Expr::Object(o) => *o, Expr::Reference(_, v) => cast_object(*v),', 'Expr::Object(o) => *o, Expr::Reference(_, v) => cast_object((Expr::Number(0), v.1)),', ['C01.cast.object']),
+    ],
+}
+
 PROPS = {
+    'C01': {
+        'units': ['c01'],
+        'kani': [dict(_KANI_STATUS, obligation='C01.status.try_from.total')],
+        'level': 'other',
+        'obligation_prefixes': ['C01.'],
+        'technique': 'Verus contracts on the real cast_*, kind predicates, check_*/type_check and eval_* bodies: progress at every cast site relative to a stated (assumed) tag/value preservation relation',
+        'level_text': 'Deductive proof (Verus/Z3) of PROGRESS at the cast sites, for all syntax trees and tags: (1) each real cast_* cannot panic under a stated value precondition; '
+                      '(2) the real TagWrap predicates / check_* / type_check establish, for every node of a module, the kind facts of its children; '
+                      '(3) in the real bodies of eval_terminal/transfer/relation/program/uri_template/content/object/variadic_operation/unary_operation/property/array every cast precondition follows '
+                      'from those kind facts, the runtime guards of the code, and the assumed preservation relation at eval_any. '
+                      'Preservation (inference soundness), termination of evaluation, eval_application/eval_declaration/eval_variable/eval_binding/eval_recursion/eval_literal, and the emitter panics are not decided: level other.',
+        'level_note': 'ASSUMED: preservation `inhabits(value, tag)` at eval_any (stated once, deliberately permissive); every evaluated node belongs to a module accepted by type_check; the equations of `constrain` hold on final tags (unify/substitute sound); '
+                      'no unresolved type variable at a cast-relevant position (violated by generic functions imported across modules: known finding C01.site.var); the reference table holds schemas only. '
+                      'Trusted shims: oal_syntax::parser node accessors as an opaque tree with ghost structure, Annotation getters, EnumMap/IndexMap/Ranges operations, Rc/String helpers (R-local rewrites, logged).',
+        'design_ref': 'DESIGN.md section 5, C01',
+        'explanation': 'Type soundness = preservation + progress. This check decides progress at the evaluator\'s cast sites on the real code, relative to an explicit preservation assumption. '
+                       'On the pinned tree four site obligations failed (headers, transfer domain, resource relation, relation uri; plus concat by the same pattern), each confirmed with the real CLI and repaired by fix commit 070d7db. '
+                       'The unresolved-variable family (imported generic function) remains as known finding C01.site.var.',
+        'assumptions': ['preservation at eval_any (inhabits)', 'compiled(): every evaluated node was type-checked (glue not verified)', 'solved(): unification is sound', 'resolved(): no residual type variable (known finding when violated)', 'refs_are_schemas (evaluator invariant)'],
+        'not_decided': ['preservation (that the inferred tag describes the evaluated value)', 'termination of evaluation / stack depth', 'eval_application, eval_declaration, eval_variable, eval_binding, eval_recursion, eval_literal, eval_any dispatcher panics', 'emitter unreachable!/expect sites (oal-openapi)', 'loader/ModuleSet unwraps'],
+    },
     'C03': {
         'units': ['c03'],
         'kani': [dict(_KANI_STATUS, obligation='C03.status.code_domain')],
@@ -288,7 +326,6 @@ NOT_APPLICABLE = {
     'C13': 'exit status, stderr and "target file untouched" are effects of a process over the file system reached through &self unit structs; agreement of three front ends is relational',
     'C17': 'defined against the binding relation (C08, not available) for every cursor position, answered by the running server',
     'C18': 'rename correctness is alpha-equivalence of two whole programs (C05 shape) and depends on the resolver invariant (C08)',
-    'C01': 'contract not completed yet (see DESIGN.md section 5, C01)',
 }
 
 
